@@ -163,7 +163,7 @@ class Src:
             lo, hi = 0, len(self.s)
         else:
             lo, hi = self.impl_span(impl) if isinstance(impl, str) else self.impl_span(*impl)
-        for m in re.finditer(r'(?:pub(?:\([a-z]+\))? )?(?:const|static) ' + re.escape(name) + r'\b[^=;]*?=\s', self.s):
+        for m in re.finditer(r'(?:pub(?:\([a-z]+\))? )?(?:const|static) ' + re.escape(name) + r'\b[^=\n]*?=\s', self.s):
             if not (lo <= m.start() < hi):
                 continue
             k = m.end()
